@@ -169,7 +169,7 @@ theorem find_spec {n : Nat} {regs : Nat → List Nat} {s s' : St} (r : Reach n r
   exact ⟨ab, strstr_first c needle⟩
 
 /-- `findLast(const char*)` (repaired, D7): the last occurrence; for the empty needle the offset of the terminator -/
-theorem findLast_spec' {n : Nat} {regs : Nat → List Nat} {s s' : St} (r : Reach n regs s) {v : Nat}
+theorem findLastStr_spec {n : Nat} {regs : Nat → List Nat} {s s' : St} (r : Reach n regs s) {v : Nat}
     (hv : validVar s v = true) {needle c : List Nat} {res : Option Nat}
     (e : findLastS s v needle = some (s', res)) (hc : allSome (absVar s v) = some c) (hz : ∀ x ∈ c, x ≠ 0) :
     (∀ w, absVar s' w = absVar s w) ∧ LastMatch c needle res ∧ (needle = [] → res = some c.length) := by
